@@ -174,10 +174,11 @@ func applySearchSingleQuery(colWips map[string]*ColWip, sQuery *structs.SearchQu
 			}
 			retVal, _ := ApplySearchToExpressionFilterSimpleCsg(sQuery.QueryInfo.QValDte, sQuery.ExpressionFilter.FilterOp, colVal.getLastRecord(), false, holderDte, sQuery.FilterIsCaseInsensitive)
 			if retVal {
-				return true
+				// a negated comparison selects the records where no column satisfies it
+				return !sQuery.ExpressionFilter.NegateMatch
 			}
 		}
-		return false
+		return sQuery.ExpressionFilter.NegateMatch
 	case structs.MatchDictArraySingleColumn:
 		rawVal, ok := colWips[sQuery.QueryInfo.ColName]
 		if !ok {
